@@ -814,17 +814,18 @@ class WSLoop:
 
 
 class Ctx:
-    __slots__ = ("ws", "prot", "privs", "ctrl", "pnode")
+    __slots__ = ("ws", "prot", "privs", "ctrl", "pnode", "arms")
 
-    def __init__(self, ws=(), prot=None, privs=frozenset(), ctrl=(), pnode=None):
+    def __init__(self, ws=(), prot=None, privs=frozenset(), ctrl=(), pnode=None, arms=()):
         self.ws = ws
         self.prot = prot
         self.privs = privs
         self.ctrl = ctrl
         self.pnode = pnode   # id of the protecting construct (single/master/section/critical...)
+        self.arms = arms     # ((if/switch node id, arm index, condition, ctx at the statement), ...)
 
     def but(self, **kw):
-        c = Ctx(self.ws, self.prot, self.privs, self.ctrl, self.pnode)
+        c = Ctx(self.ws, self.prot, self.privs, self.ctrl, self.pnode, self.arms)
         for k, v in kw.items():
             setattr(c, k, v)
         return c
@@ -1130,9 +1131,9 @@ class Region:
             sub = ctx.but(ctrl=ctx.ctrl + (("if", n, frozenset(), (cond,)),))
             p0 = self.phase
             ends = []
-            for c in ks[1:]:
+            for arm, c in enumerate(ks[1:]):
                 self.phase = p0
-                self._visit(c, sub)
+                self._visit(c, sub.but(arms=ctx.arms + ((n["id"], arm, cond, ctx),)))
                 ends.append(self.phase)
             if any(e != p0 for e in ends):
                 # a barrier on some branch: what follows is treated as ordered after what precedes
@@ -1149,8 +1150,24 @@ class Region:
             if k == "WhileStmt":
                 self._loop_body(n, ks[1:], sub)
             else:
-                for c in ks[1:]:
-                    self._visit(c, sub)
+                groups = self._switch_groups(ks[1]) if len(ks) == 2 else None
+                if groups is None:
+                    for c in ks[1:]:
+                        self._visit(c, sub)
+                else:
+                    # break-separated case groups are mutually exclusive paths, like the arms of an if
+                    p0 = self.phase
+                    ends = []
+                    for arm, grp in enumerate(groups):
+                        self.phase = p0
+                        g_ctx = sub.but(arms=ctx.arms + ((n["id"], arm, cond, ctx),))
+                        for c in grp:
+                            self._visit(c, g_ctx)
+                        ends.append(self.phase)
+                    if any(e != p0 for e in ends):
+                        self._barrier()
+                    else:
+                        self.phase = p0
             return
         elif k == "DoStmt":
             ks = kids(n)
@@ -1163,6 +1180,32 @@ class Region:
             raise AnalysisError("%s: return inside a parallel region" % self.func.name)
         for c in children(n):
             self._visit(c, ctx)
+
+    def _switch_groups(self, body):
+        """statements of a switch body grouped by case label, if every group but the last ends in a jump
+        (no fall-through) and no statement precedes the first label; else None"""
+        if body.get("kind") != "CompoundStmt":
+            return None
+        groups = []
+        for c in kids(body):
+            if c.get("kind") in ("CaseStmt", "DefaultStmt"):
+                groups.append([c])
+            elif not groups:
+                return None
+            else:
+                groups[-1].append(c)
+        if len(groups) < 2:
+            return None
+        for g in groups[:-1]:
+            body_stmts = [c for c in g if c.get("kind") != "NullStmt"]
+            last = body_stmts[-1]
+            while last.get("kind") in ("CaseStmt", "DefaultStmt") and kids(last):
+                last = kids(last)[-1]
+            if last.get("kind") == "CompoundStmt" and kids(last):
+                last = kids(last)[-1]
+            if last.get("kind") not in ("BreakStmt", "ReturnStmt", "ContinueStmt", "GotoStmt"):
+                return None
+        return groups
 
     def _loop_body(self, scope, stmts, ctx):
         """body of a serial loop.  If it contains barrier points, its first phase overlaps both the phase
@@ -1631,7 +1674,19 @@ class Region:
                 return "static"
         return False
 
+    def _exclusive_paths(self, ca, cb):
+        """the two contexts lie under different arms of one if / else-if / switch whose condition is the
+        same for every thread and iteration: they never both execute in one run of the region"""
+        mine = {a[0]: a for a in ca.arms}
+        for nid, arm, cond, cctx in cb.arms:
+            a = mine.get(nid)
+            if a is not None and a[1] != arm and not self.taint(cond, cctx):
+                return True
+        return False
+
     def _excluded_pair(self, cw, cr):
+        if self._exclusive_paths(cw, cr):
+            return True
         if cw.prot in MUTEX and cr.prot in MUTEX:
             return True                      # mutually exclusive blocks
         if cw.pnode is not None and cw.pnode == cr.pnode:
